@@ -48,7 +48,7 @@ def _strip_fn(fn):
     return fn.strip()
 
 
-_FRAME = re.compile(r"^\s*#\d+\s+0x[0-9a-f]+\s+in\s+(.+?)\s+(/\S+?):(\d+)")
+_FRAME = re.compile(r"^\s*#\d+\s+(?:0x[0-9a-f]+\s+in\s+)?(.+?)\s+(/\S+?):(\d+)")
 
 
 def first_repo_frame(lines):
